@@ -143,6 +143,14 @@ class Check:
         self.obs.extend(res.obligations)
         self.assumptions |= res.assumed
         self.layout_facts |= res.layout_facts
+        for w in res.exe.sem.used_band:
+            if ('band', w) not in self.__dict__.setdefault('_lemmas_done', set()):
+                self._lemmas_done.add(('band', w))
+                from .sem import band_lemmas
+                from .symex import Obligation
+                for nm, f in band_lemmas(w):
+                    self.obs.append(Obligation('lemma/' + nm, [], z3.Not(f), 'post'))
+                self.assumptions.add('bit k of an integer x in [0,2^%d) is (x div 2^k) mod 2 (correspondence between the Int and BitVec views used by the band%d lemmas)' % (w, w))
         if num_mode == 'real':
             self.assumptions.add('%s: machine doubles treated as mathematical reals' % fn)
         return res
